@@ -345,14 +345,14 @@ func (h *hostEnv) close() {
 }
 
 // form creates contract i with the given allowance (a fresh contract replaces the old one).
-func (h *hostEnv) form(i int, allowance, collateral types.Currency) error {
+func (h *hostEnv) form(i int, allowance, collateral types.Currency, proofDelta uint64) error {
 	fs := &walletSigner{h.rw, h.renter[i]}
 	res, err := rhp4.RPCFormContract(context.Background(), h.transport, h.cm, fs, h.cm.TipState(), h.prices, h.hostKey.PublicKey(), h.settings.WalletAddress, proto4.RPCFormContractParams{
 		RenterPublicKey: h.renter[i].PublicKey(),
 		RenterAddress:   h.rw.Address(),
 		Allowance:       allowance,
 		Collateral:      collateral,
-		ProofHeight:     h.cm.Tip().Height + 500,
+		ProofHeight:     h.cm.Tip().Height + proofDelta,
 	})
 	if err != nil {
 		return fmt.Errorf("form contract %d: %w", i, err)
@@ -361,6 +361,67 @@ func (h *hostEnv) form(i int, allowance, collateral types.Currency) error {
 	h.rec.persisted(res.Contract.ID, res.Contract.Revision)
 	h.rec.take()
 	return h.mine(types.VoidAddress, 1)
+}
+
+// state returns what the host itself reports for contract i (revision, revisable, renewed).
+func (h *hostEnv) state(i int) (rhp4.RevisionState, error) {
+	rs, unlock, err := h.ec.LockV2Contract(h.contracts[i].ID)
+	if err != nil {
+		return rhp4.RevisionState{}, err
+	}
+	unlock()
+	return rs, nil
+}
+
+// renewalExists asks the Contractor whether a renewal of the contract is known.
+func (h *hostEnv) renewalExists(id types.FileContractID) bool {
+	_, unlock, err := h.ec.LockV2Contract(id.V2RenewalID())
+	if err != nil {
+		return false
+	}
+	unlock()
+	return true
+}
+
+// expire makes contract i unrevisable: the chain is mined up to its proof height, or
+// (mode "renew", and whenever the proof height is far away) the contract is renewed.
+func (h *hostEnv) expire(i int, mode string) error {
+	rs, err := h.state(i)
+	if err != nil {
+		return err
+	}
+	if !rs.Revisable {
+		return nil
+	}
+	tip := h.cm.Tip().Height
+	if mode == "height" && rs.Revision.ProofHeight <= tip+40 {
+		if err := h.mine(types.VoidAddress, int(rs.Revision.ProofHeight-tip)); err != nil {
+			return err
+		}
+	} else {
+		fs := &walletSigner{h.rw, h.renter[i]}
+		ph := max(rs.Revision.ProofHeight+1, max(tip, h.prices.TipHeight)+proto4.MinContractDuration+2)
+		_, err := rhp4.RPCRenewContract(context.Background(), h.transport, h.cm, fs, h.cm.TipState(), h.prices, h.settings.WalletAddress, rs.Revision, proto4.RPCRenewContractParams{
+			ContractID:  h.contracts[i].ID,
+			Allowance:   h.prices.RPCWriteSectorCost(proto4.SectorSize).RenterCost(),
+			Collateral:  types.ZeroCurrency,
+			ProofHeight: ph,
+		})
+		if err != nil {
+			return fmt.Errorf("renew contract %d: %w", i, err)
+		}
+		if err := h.mine(types.VoidAddress, 1); err != nil {
+			return err
+		}
+	}
+	h.rec.quiesce()
+	h.rec.take()
+	if rs, err = h.state(i); err != nil {
+		return err
+	} else if rs.Revisable {
+		return fmt.Errorf("contract %d is still revisable after %s", i, mode)
+	}
+	return nil
 }
 
 // stored returns the revision the host itself holds for contract i.
